@@ -141,7 +141,14 @@ func EmitCases(g *h.G, s *tlmini.Schema, tys []*tlmini.Ty, n int, reqOp, key str
 			if t.Kind == tlmini.KBoxed && g.Rng.Intn(4) == 0 { // dispatch on an id that is not one of the type's
 				bad := append([]byte{}, ref...)
 				bad[g.Rng.Intn(4)] ^= byte(1 << uint(g.Rng.Intn(8)))
-				g.Emit("tl.dec", sub, t.Name, h.Hex(bad))
+				tag := uint32(bad[0]) | uint32(bad[1])<<8 | uint32(bad[2])<<16 | uint32(bad[3])<<24
+				clash := false
+				for _, c := range s.CtorsOf(t.Name) {
+					clash = clash || c.ID == tag
+				}
+				if !clash {
+					g.Emit("tl.dec", sub, t.Name, h.Hex(bad))
+				}
 			}
 		}
 	}
@@ -179,12 +186,24 @@ func EmitCases(g *h.G, s *tlmini.Schema, tys []*tlmini.Ty, n int, reqOp, key str
 				eb, _ := s.EncodeFields(errDecl.Fields, ev)
 				g.Count("answer_error")
 				g.Emit("tl.ans", sub, d.Ctor, h.Hex(append(tlmini.Le32(errDecl.ID), eb...)))
-			case 1: // wrong tag: the id of some other declaration, or a flipped bit
+			case 1: // wrong tag: the id of some other declaration, or a flipped bit - never another constructor of the
+				// result type (that would be a malformed value of the right type: property C08, not this one)
 				bad := append([]byte{}, rb...)
-				if g.Rng.Intn(2) == 0 {
-					copy(bad, tlmini.Le32(all[g.Rng.Intn(len(all))].ID))
-				} else {
-					bad[g.Rng.Intn(4)] ^= byte(1 << uint(g.Rng.Intn(8)))
+				for {
+					if g.Rng.Intn(2) == 0 {
+						copy(bad, tlmini.Le32(all[g.Rng.Intn(len(all))].ID))
+					} else {
+						copy(bad, rb[:4])
+						bad[g.Rng.Intn(4)] ^= byte(1 << uint(g.Rng.Intn(8)))
+					}
+					tag := uint32(bad[0]) | uint32(bad[1])<<8 | uint32(bad[2])<<16 | uint32(bad[3])<<24
+					clash := tag == errDecl.ID
+					for _, c := range s.CtorsOf(d.Result) {
+						clash = clash || c.ID == tag
+					}
+					if !clash {
+						break
+					}
 				}
 				g.Count("answer_wrong_tag")
 				g.Emit("tl.ans", sub, d.Ctor, h.Hex(bad))
